@@ -62,6 +62,9 @@ def main():
             out["baseline_tail"] = o[-300:]
         finally:
             run(f"git -C /repo worktree remove --force {wt}")
+    if "--skip-detect" in sys.argv:
+        print(json.dumps(out, indent=1))
+        return
     # detection
     rc, o = run(f"git -C /repo apply {patch}")
     assert rc == 0, "patch does not apply to /repo: " + o
